@@ -113,6 +113,9 @@ pub const CFG_NO_TRIM_CLOSING: u16 = 64;
 pub const CFG_ALL: u16 = 127;
 /// bits 8..=10 of a step's cfg: how many events the *caller* reads from the reader before handing it over
 /// (an application that skips the prolog or an envelope element itself)
+/// after a failed call the caller carries on with the *same* reader (same kind of call, same tree), up to three more
+/// times while the calls keep failing; the outcome of the step is that of the last call
+pub const CFG_CARRY_ON: u16 = 1 << 11;
 pub const CFG_PRECONSUME_SHIFT: u16 = 8;
 pub const CFG_PRECONSUME_MASK: u16 = 7 << 8;
 
@@ -288,16 +291,37 @@ pub enum Delivered {
 }
 
 /// One delivery through the chosen reader stack. `prev` = None ⇒ `into_struct`, else `extend_struct`.
+/// one library call on a reader of whatever type
+trait DynCall {
+    fn call(&mut self, prev: Option<Element<String>>) -> Result<Element<String>, ParserError>;
+}
+impl<R: std::io::BufRead> DynCall for Reader<R> {
+    fn call(&mut self, prev: Option<Element<String>>) -> Result<Element<String>, ParserError> {
+        match prev {
+            None => into_struct(self),
+            Some(t) => extend_struct(self, t),
+        }
+    }
+}
+
 pub fn deliver(prev: Option<Element<String>>, bytes: &[u8], plan: &Plan, cfg: u16) -> (Delivered, ReadStats, u64) {
     let mut stats = ReadStats::default();
     let mut rlog = 0u64;
     let r = catch_unwind(AssertUnwindSafe(|| {
-        fn go<R: std::io::BufRead>(prev: Option<Element<String>>, reader: &mut Reader<R>) -> Result<Element<String>, ParserError> {
-            match prev {
-                None => into_struct(reader),
-                Some(t) => extend_struct(reader, t),
+        let carry_on = cfg & CFG_CARRY_ON != 0;
+        let go = move |prev: Option<Element<String>>, reader: &mut dyn DynCall| -> Result<Element<String>, ParserError> {
+            if !carry_on {
+                return reader.call(prev);
             }
-        }
+            let mut last = reader.call(prev.clone());
+            for _ in 0..3 {
+                if last.is_ok() {
+                    break;
+                }
+                last = reader.call(prev.clone());
+            }
+            last
+        };
         if plan.slice {
             let mut reader = Reader::from_reader(bytes);
             apply_cfg(&mut reader, cfg);
@@ -374,10 +398,17 @@ fn run_replica_here(session: &Session, r: &Replica, want: &Want) -> Vec<StepOut>
     run_steps(session, r, want, None, 0, r.steps.len()).0
 }
 
+/// `…+weathered<N>`: the replica's thread has been through its warm-up deliveries N times over (a long-running worker
+/// that has seen hundreds or thousands of failed documents before this history starts)
+pub fn weathered(role: &str) -> usize {
+    role.rsplit_once("+weathered").and_then(|(_, n)| n.parse().ok()).unwrap_or(1)
+}
+
 fn run_warmup(session: &Session, r: &Replica) {
     // veteran thread: earlier, unrelated work on this thread (results discarded)
     let mut junk: Option<Element<String>> = None;
-    for st in &r.warmup {
+    let reps = weathered(&r.role).max(1);
+    for st in r.warmup.iter().cycle().take(r.warmup.len() * reps) {
         let bytes = session.bytes_of(&st.input);
         let keep = junk.clone();
         let (d, _, _) = deliver(junk.take(), &bytes, &st.plan, st.cfg);
